@@ -29,10 +29,10 @@ TABLE = {
     'C02': (True, 'symbolic execution of gamma_method (Gamma(t) abstraction point, symbolic S/tau_exp/N_sigma/eps/tiny) + per-path SMT equivalence with Wolff formulas; ast2smt padding/index lemmas for the FFT branch',
             'Compositional: Gamma(t) of the real _calc_gamma equals the pair-normalised autocorrelation sum for all fluctuations; every output of the real windowing / bias / '
             'drho / tail / S=0 code equals the paper formula on every path for all Gamma values and parameters; the FFT padding lemma holds for all integers.',
-            'Real-number semantics; FFT numerics trusted (padding lemma + correlation theorem); chain length bounded (w_max <= 5, thorough 8/10); exp/log/sqrt uninterpreted with lemmas.'),
-    'C03': (True, 'symbolic execution of gamma_method on pairs of objects sharing symbolic samples (relabelled / renamed / shifted / scaled / stale-state) + SMT equality of every output per path; ast2smt shift lemma',
+            'Real-number semantics; FFT numerics trusted: rfft / irfft are replaced by their exact correlation-theorem model and the FFT branch is executed (fft_exec), the padding lemma is kept as an auxiliary check; chain length bounded (w_max <= 5, thorough 8/10); exp/log/sqrt uninterpreted with lemmas.'),
+    'C03': (True, 'symbolic execution of gamma_method on pairs of objects sharing symbolic samples (relabelled / renamed / shifted / scaled / stale-state) + SMT equality of every output per path; ast2smt shift lemma; FFT branch of _calc_gamma executed on an exact rfft / irfft model (correlation theorem) and compared with the direct summation',
             'Invariance under i->a*i+b, replica renaming/reordering, additive constants, |c|-scaling, repeatability, independence from stale state and foreign dictionary entries, '
-            'parameter precedence, non-mutation of the data and tau_int>=1/2 / non-negative errors are proven for all sample values on every path of the enumerated cases.',
+            'parameter precedence, non-mutation of the data, equality of the FFT and the direct path at every lag (also for replicas shorter than w_max) and tau_int>=1/2 / non-negative errors are proven for all sample values on every path of the enumerated cases.',
             'Real-number semantics ("finite" not expressible); scaling claimed away from the |Gamma(0)|<10*tiny underflow guard; chain length bounded; histories by one inductive step.'),
     'C06': (True, 'symbolic execution of covariance/_covariance_element/sort_corr/error_band on z3 reals with size-triggered term abstraction; SMT (QF_NRA) identities incl. sqrt lemmas',
             'Symmetry, diagonal = dvalue^2, unit-diagonal correlation, zero covariance for disjoint support, permutation equivariance, Pearson identity on the common '
@@ -64,8 +64,8 @@ TABLE = {
     'C10': (True, 'symbolic execution of linalg.matmul / jack_matmul / inv / _scalar_mat_op / array_mode on matrices of symbolic observables; SMT equivalence modulo embedding; LAPACK inverse replaced by its (differentiated) contract',
             'matmul (real, complex, 2-3 factors) and array_mode equal the explicit sum of element products; jack_matmul has the exact central value and the jackknife pseudo-value fluctuations; '
             'inv(): the matrix handed to LAPACK is A (resp. [[A,-B],[B,A]]), the result carries X (resp. X11 + i X21) and every fluctuation is -(X dM X), which with M X = 1 gives A inv(A) = 1 in value and every fluctuation; '
-            '_scalar_mat_op reassembles row-major.',
-            'cholesky, det, eigh, eig, pinv, svd and einsum are outside (LAPACK decompositions / dtype dispatch cannot be encoded); the final step M X = 1 => identity is an argument except for the 1x1 end-to-end case.'),
+            '_scalar_mat_op reassembles row-major; det equals the cofactor expansion built with the Obs operators (n <= 3, determinant as its Leibniz polynomial, derivative by the product rule on dual numbers).',
+            'einsum for real operands like jack_matmul (exact value, jackknife pseudo-value fluctuations); cholesky, eigh, eig, pinv, svd and complex einsum are outside (LAPACK decompositions / dtype dispatch cannot be encoded); the final step M X = 1 => identity is an argument except for the 1x1 end-to-end case.'),
     'C11': (True, 'symbolic execution of the JSON writers / readers / dict helpers / file and data-frame transports on symbolic observables behind a rapidjson data-model contract; SMT equality of every attribute after the round trip',
             'Every attribute of every re-imported Obs / list / array / Corr / nested dict equals the original for all values, fluctuations, replica means and gradients; structure, tags, prange, None pattern, '
             'idl form and flags are compared concretely; every emitted document validates against the shipped schema (one instantiation, justified by a scan of the schema).',
